@@ -777,6 +777,7 @@ pub fn run(scn: &ClientScn, tape: Tape, logging: bool) -> RunOutput {
                 chaos.push(sim.spawn("peer_eof", async move {
                     tokio::time::sleep(Duration::from_millis(at)).await;
                     sim_c.count("fault.peer_eof");
+                    sim_c.log(EvKind::Fault { kind: "peer_eof", arg: 0 });
                     peer_c.close_read();
                 }));
             }
@@ -1249,6 +1250,23 @@ pub fn check(scn: &ClientScn, log: &[Ev], horizon_reached: bool, sim: &Sim) -> V
                 }
             }
         }
+        // C02: capacity or writability returning has to get queued requests moving. At a
+        // quiescent point with a writable transport and a free in-flight slot no live call may
+        // still be waiting, unsent, inside the client.
+        if let Some(smp) = samples_at_idle.iter().find(|x| x.0 == *iseq) {
+            let killed = dispatch_killed.map(|k| k < *iseq).unwrap_or(false);
+            if (smp.1 as usize) < scn.max_in_flight && !killed && !panicked && handles_dropped.map(|h| h > *iseq).unwrap_or(true) {
+                for (i, c) in calls.iter().enumerate() {
+                    let Some((inv, _)) = c.invoke else { continue };
+                    let unsent = c.r_send.map(|r| r.0 > *iseq).unwrap_or(true);
+                    let gone = c.abandon.map(|a| a.0 < *iseq).unwrap_or(false) || c.resolve.as_ref().map(|r| r.0 < *iseq).unwrap_or(false) || c.skipped;
+                    if inv < *iseq && unsent && !gone {
+                        v.push(viol("C02", "lost-wake", &["capacity"], format!("call {i} is still queued inside the client at idle seq {iseq} although the transport is writable and only {} of {} in-flight slots are taken: nothing woke the dispatch to send it", smp.1, scn.max_in_flight)));
+                        break;
+                    }
+                }
+            }
+        }
         // C11: everything ended => nothing tracked
         let all_ended = calls.iter().all(|c| match c.invoke {
             None => true,
@@ -1428,6 +1446,17 @@ pub fn check(scn: &ClientScn, log: &[Ev], horizon_reached: bool, sim: &Sim) -> V
             }
             if dispatch_done.is_some() && close_called.is_none() && read_eof.is_none() {
                 v.push(viol("C10", "no-close", &[], "dispatch completed after handle drop without closing the transport".to_string()));
+            }
+        }
+    }
+    // the peer ending the read side is itself an event that has to wake the dispatch and stop it,
+    // whether or not anything is in flight at that moment
+    if let Some(pseq) = log.iter().find(|e| matches!(e.kind, EvKind::Fault { kind: "peer_eof", .. })).map(|e| e.seq) {
+        let next_idle = idles.iter().find(|x| x.0 > pseq).map(|x| x.0);
+        if let Some(ni) = next_idle {
+            let ended_before = dispatch_done.as_ref().map(|d| d.0 < pseq).unwrap_or(false) || dispatch_killed.map(|k| k < ni).unwrap_or(false);
+            if !ended_before && !panicked && teardown.map(|t| ni < t).unwrap_or(true) && !dispatch_done.as_ref().map(|d| d.0 < ni).unwrap_or(false) {
+                v.push(viol("C10", "eof-hang", &["dispatch", "unnoticed"], format!("the peer ended the read side at seq {pseq}; dispatch still running at idle seq {ni}")));
             }
         }
     }
